@@ -7,7 +7,7 @@ From Arsenal Require Import Util Budget BudgetProofs VamDev VamBlockList VamDefr
 From Arsenal Require Import VamInvStep VamInvStep2 VamInvThm VamProps VamAcct VamAcctStep VamAcctStep2 VamAcctThm VamMap VamMapStep VamMapStep2 VamMapThm.
 From Arsenal Require Import VamHv VamHvStep VamHvStep2 VamHvThm.
 From Arsenal Require Import VamDefragInv VamDefragStep VamDefragPass VamDefragThm VamDefragAcct VamDefragMap.
-From Arsenal Require Pass PassProofs Defrag DefragProofs DefragGranProofs SyncMem SyncMemProofs VamDefragBridge.
+From Arsenal Require Pass PassProofs Defrag DefragProofs DefragGranProofs Gran GranInv GranTlsf VamGran SyncMem SyncMemProofs VamDefragBridge.
 Import ListNotations.
 Open Scope Z_scope.
 
@@ -165,7 +165,7 @@ Qed.
 
 Lemma collect_list_HH v dc p :
   VamInv c v -> MM ms0 v [] -> HHc v [] -> Defrag.c_moves (dc_ctx dc) = [] -> PassProofs.pass_running p ->
-  (forall l, get_blist v (dc_lr dc) = Some l -> bl_gran l = 1) ->
+  VamGran.GV v ->
   let '(v', r) := collect_list c v dc p in match r with OK _ => HHc v' [] | _ => True end.
 Proof.
   intros HI HM HH0 Hidle Hrun HG1. unfold collect_list.
@@ -174,8 +174,8 @@ Proof.
   assert (Est : exists bl, project_blocks (bl_blocks l) = Some bl /\ st = Defrag.mkD bl (map (project_entry (dc_lr dc)) (v_tab v)) false).
   { unfold project in Ep. rewrite Hg in Ep. destruct (project_blocks (bl_blocks l)) as [bl|]; [|discriminate]. injection Ep as <-. eauto. }
   destruct Est as (bl & Epb & Est).
-  pose proof (project_wf c v (dc_lr dc) l st HI Hg (HG1 l eq_refl) Ep) as HW.
-  pose proof (VamDefragBridge.collect_moves_f_strace_g1 vam (att_commit c (dc_lr dc)) st (dc_ctx dc) p v HW Hrun) as HT. cbn zeta in HT.
+  pose proof (project_wf c v (dc_lr dc) l st HI HG1 Hg Ep) as HW.
+  pose proof (VamDefragBridge.collect_moves_f_strace_p (bl_gran l) vam (att_commit c (dc_lr dc)) st (dc_ctx dc) p v HW Hrun) as HT. cbn zeta in HT.
   destruct (Defrag.collect_moves_f vam (att_commit c (dc_lr dc)) st (dc_ctx dc) p v) as (((cs & env) & log) & wr).
   unfold Defrag.log_f, Defrag.env_f in HT. cbn [fst snd] in HT.
   set (ty0 := bl_type l).
@@ -212,17 +212,17 @@ Proof.
 Qed.
 
 Lemma pass_loop_HH fuel : forall v run p,
-  VamInv c v -> MM ms0 v [] -> HHc v [] -> run_idle run -> 0 <= dr_max_bytes run -> 0 <= dr_max_allocs run -> PassProofs.pass_running p -> lists_g1 v run ->
+  VamInv c v -> MM ms0 v [] -> HHc v [] -> run_idle run -> 0 <= dr_max_bytes run -> 0 <= dr_max_allocs run -> PassProofs.pass_running p -> VamGran.GV v ->
   let '(v', run', r) := pass_loop c fuel v run p in match r with OK _ => HHc v' [] | _ => True end.
 Proof.
   induction fuel as [|f IH]; intros v run p HI HM HH0 Hidle Hb Ha Hrun HG; cbn [pass_loop]; [exact I|].
   destruct (nth_z (dr_ctxs run) (dr_progress run)) as [dc|] eqn:En; [|exact HH0].
   assert (Hdc : Defrag.c_moves (dc_ctx dc) = []) by (eapply Hidle; eauto).
-  pose proof (VamDefragPass.collect_list_inv c v dc p HI Hdc Hrun (fun l Hl => HG _ _ _ En Hl)) as PS.
+  pose proof (VamDefragPass.collect_list_inv_gv c v dc p HI HG Hdc Hrun) as PS.
   pose proof (VamDefragMap.collect_list_MM c Hc Hmax Hlarge ms0 v dc p HI HM) as PM.
-  pose proof (collect_list_HH v dc p HI HM HH0 Hdc Hrun (fun l Hl => HG _ _ _ En Hl)) as P.
+  pose proof (collect_list_HH v dc p HI HM HH0 Hdc Hrun HG) as P.
   destruct (collect_list c v dc p) as (v1 & r). destruct r as [(dc' & p')|code| |]; auto.
-  destruct PS as (S1 & LS1 & GS1 & Elr & MS1 & Hrun').
+  destruct PS as ((S1 & LS1 & GS1 & Elr & MS1 & Hrun') & HG1).
   pose proof (nth_z_some_range _ _ _ En) as Hrg.
   destruct (Defrag.c_moves (dc_ctx dc')) as [|m0 ms1] eqn:Em; [|exact P].
   match goal with |- context [pass_loop c f v1 ?rr p'] => set (run1 := rr) end.
@@ -231,12 +231,6 @@ Proof.
     destruct (Z.eq_dec i (dr_progress run)) as [->|Hne].
     - rewrite nth_z_set_same in Hn1 by exact Hrg. injection Hn1 as <-. exact Em.
     - rewrite nth_z_set_other in Hn1 by congruence. eapply Hidle; eauto. }
-  assert (HG1 : lists_g1 v1 run1).
-  { intros i dc1 l1 Hn1 Hg1. unfold run1 in Hn1. cbn [dr_ctxs] in Hn1. unfold set_nth_ctx in Hn1.
-    destruct (Z.eq_dec i (dr_progress run)) as [->|Hne].
-    - rewrite nth_z_set_same in Hn1 by exact Hrg. injection Hn1 as <-. rewrite Elr in Hg1.
-      eapply (lists_frame_g1 v v1 (dr_ctxs run) LS1 HG); eauto.
-    - rewrite nth_z_set_other in Hn1 by congruence. eapply (lists_frame_g1 v v1 (dr_ctxs run) LS1 HG); eauto. }
   apply IH; auto.
 Qed.
 
@@ -321,15 +315,15 @@ Qed.
 (* ---------------------------------------------------------------- one defragmentation call *)
 
 Lemma dexec_HH v run o :
-  VamInv c v -> MM ms0 v [] -> HHc v [] -> drun_ok v run -> dop_ok v run o ->
+  VamInv c v -> MM ms0 v [] -> HHc v [] -> VamGran.GV v -> drun_ok v run -> dop_ok v run o ->
   let '(v', run', r, dr) := dexec c v run o in match r with OK _ | ER _ => HHc v' [] | _ => True end.
 Proof.
-  intros HI HM H Hr Hok. destruct o as [flags pool mb ma| |ds|]; cbn [dexec].
+  intros HI HM H HV Hr Hok. destruct o as [flags pool mb ma| |ds|]; cbn [dexec].
   - pose proof (defrag_begin_inv c v flags pool mb ma HI) as P. pose proof (VamDefragAcct.defrag_begin_m c v flags pool mb ma) as Hm.
     destruct (defrag_begin c v flags pool mb ma) as (v1 & r). cbn [fst] in Hm. destruct P as (_ & T1 & _).
     assert (H1 : HHc v1 []) by (apply (HH_lists v []); auto).
     destruct r as [rn|code| |]; auto.
-  - destruct run as [rn|]; [|exact I]. destruct Hok as (Hidle & HG). destruct Hr as (Hb & Ha & Hr).
+  - destruct run as [rn|]; [|exact I]. pose proof Hok as Hidle. pose proof HV as HG. destruct Hr as (Hb & Ha & Hr).
     pose proof (pass_loop_HH (S (length (dr_ctxs rn))) v rn (Pass.pass_init (dr_max_bytes rn) (dr_max_allocs rn)) HI HM H Hidle Hb Ha
                   (PassProofs.pass_init_running _ _ Hb Ha) HG) as P.
     pose proof (defrag_pass_inv c v rn HI (conj Hb (conj Ha Hr)) Hidle HG) as PS.
@@ -355,11 +349,11 @@ Let Hmax := ca_max c Ha.
 Let Hlarge := ca_large c Ha.
 
 Theorem dstep_preservesH v run o f :
-  VamInv c v -> MapInv v [] -> PersistInv c v [] -> drun_ok v run -> dop_ok v run o ->
+  VamInv c v -> MapInv v [] -> PersistInv c v [] -> VamGran.GV v -> drun_ok v run -> dop_ok v run o ->
   let '(v', run', r, calls, dr) := dstep c v run o f in
   r <> RPanic -> r <> RStuck -> PersistInv c v' [] /\ maps_hv c (m_mems (v_m v)) calls.
 Proof.
-  intros HI HM HP Hr Hok. unfold dstep.
+  intros HI HM HP HV Hr Hok. unfold dstep.
   set (ms0 := m_mems (v_m v)).
   set (v0 := set_m v (clear_calls (set_fault (v_m v) f 0))).
   assert (Hsub : forall w m', MapInv w [] -> m_mems m' = m_mems (v_m w) -> MapInv (set_m w m') []).
@@ -373,7 +367,7 @@ Proof.
   assert (H0 : HH c ms0 v0 []) by (split; [apply LogHV_start|apply Hps; exact HP]).
   assert (Hr0 : drun_ok v0 run) by (destruct run as [rn|]; [apply run_ok_set_m; exact Hr|exact I]).
   assert (Hok0 : dop_ok v0 run o) by (destruct o; cbn in *; auto).
-  pose proof (dexec_HH c Hc Hmax Hlarge ms0 v0 run o I0 M0 H0 Hr0 Hok0) as E.
+  pose proof (dexec_HH c Hc Hmax Hlarge ms0 v0 run o I0 M0 H0 (VamGran.GR_set_m v _ HV) Hr0 Hok0) as E.
   destruct (dexec c v0 run o) as (((v1 & run1) & r) & dr).
   intros Hp Hs. destruct r as [[]|code| |]; cbn in Hp, Hs; try congruence; destruct E as (L & P);
     (split; [apply Hps; exact P|exact L]).
@@ -399,7 +393,7 @@ Proof.
       pose proof (allocation_unmap_persist c v1 slot P) as P2. destruct (allocation_unmap v1 slot) as (v2 & ur). cbn [fst] in P2.
       destruct ur as [[]|ucode| |]; injection Hs as <- _ _; apply Hps; exact P2.
   - destruct (reachDA_inv c Ha v run R) as (HI & Hr).
-    pose proof (dstep_preservesH v run o f (va_s _ _ _ _ HI) (reachDA_map c Ha v run R) IH Hr Hok) as P. rewrite Hs in P. apply P; auto.
+    pose proof (dstep_preservesH v run o f (va_s _ _ _ _ HI) (reachDA_map c Ha v run R) IH (reachD_gv c Hc v run (reachDA_reachD c Ha v run R)) Hr Hok) as P. rewrite Hs in P. apply P; auto.
 Qed.
 
 (* C08: the maps of a defragmentation call are on host-visible memory *)
@@ -408,7 +402,7 @@ Theorem dstep_maps_host_visible v run o f v' run' r calls dr :
   maps_hv c (m_mems (v_m v)) calls.
 Proof.
   intros R Hok Hs Hp Hk. destruct (reachDA_inv c Ha v run R) as (HI & Hr).
-  pose proof (dstep_preservesH v run o f (va_s _ _ _ _ HI) (reachDA_map c Ha v run R) (reachDA_persist v run R) Hr Hok) as P.
+  pose proof (dstep_preservesH v run o f (va_s _ _ _ _ HI) (reachDA_map c Ha v run R) (reachDA_persist v run R) (reachD_gv c Hc v run (reachDA_reachD c Ha v run R)) Hr Hok) as P.
   rewrite Hs in P. apply P; auto.
 Qed.
 
